@@ -15,7 +15,7 @@
 (* actual state.  A trace is a behaviour of the specification iff no       *)
 (* clause fails.                                                           *)
 (***************************************************************************)
-EXTENDS HgSem, Json, IOUtils, TLCExt
+EXTENDS HgSem, HgParse, Json, IOUtils, TLCExt
 
 Input == JsonDeserialize(IOEnv.TRACE_FILE)
 Traces == Input.traces
@@ -148,7 +148,11 @@ Expect ==
     [] op = "Copy" -> LET a == pool[Ev.a] IN X(Ev.t, FALSE, a.c, a.d, a.mut, TRUE, "det")
     [] op = "Pickle" -> LET a == pool[Ev.a] IN X(Ev.t, FALSE, a.c, a.d, a.mut, TRUE, "det")
     [] op \in {"Reload", "Immutable"} -> LET a == pool[Ev.a] IN X(Ev.t, FALSE, a.c, a.d, FALSE, TRUE, "det")
-    [] op \in {"Eq", "Read"} -> X(0, FALSE, Absent.c, DummyD, FALSE, FALSE, "pure")
+    [] op \in {"Eq", "Read", "Doc"} -> X(0, FALSE, Absent.c, DummyD, FALSE, FALSE, "pure")
+    [] op = "FromDoc" ->
+         (* loading a document: must raise iff the document is invalid; unspecified documents may do either *)
+         LET st == Parse(Ev.doc).st IN
+         [X(0, st = "invalid", Absent.c, DummyD, FALSE, FALSE, "pure") EXCEPT !.may = (st = "unspec")]
     [] op = "Drop" -> X(Ev.s, FALSE, Absent.c, DummyD, FALSE, FALSE, "drop")
 
 -----------------------------------------------------------------------------
@@ -211,6 +215,11 @@ Clauses(E) ==
                       [] Ev.op = "Reload" -> Ev.strict /\ Ev.fixpoint
                       [] Ev.op = "Increment" -> Ev.same
                       [] Ev.op = "Eq" -> EqFlags(E)
+                      [] Ev.op = "Doc" -> /\ Strict(Ev.doc)
+                                          /\ DocEq(Ev.doc, ToDoc(pool[Ev.a].c, pool[Ev.a].d))
+                      [] Ev.op = "FromDoc" ->
+                           LET r == Parse(Ev.doc) IN
+                           r.st = "valid" => DocEq(Ev.redoc, ToDoc(r.c, r.d))
                       [] OTHER -> TRUE,
     sem      |-> \/ ~WantSem \/ ~Ok \/ E.exc \/ ~shapeOK \/ overBudget \/ E.how \in {"pure", "drop"}
                  \/ IF E.how = "strip" THEN Strip(ObsC(tgt)) = Strip(Sem(E.d, BagAfter(E)[tgt]))
@@ -233,6 +242,9 @@ DevFor(E, cl) ==
           /\ Ev.wf \in {"one", "scalar"} /\ LeadCount(pool[Ev.s].d)
     THEN "Dev_LeadingCountScalarWeight"
   ELSE IF op = "Reload" /\ cl = "flags" /\ Ok /\ Ev.strict /\ ~Ev.fixpoint
+          /\ EmptySparseNamed(pool[Ev.a].c, pool[Ev.a].d)
+    THEN "Dev_ReloadedEmptySparseLosesChildName"
+  ELSE IF op = "Doc" /\ cl = "flags" /\ Ok /\ ~pool[Ev.a].mut /\ Strict(Ev.doc)
           /\ EmptySparseNamed(pool[Ev.a].c, pool[Ev.a].d)
     THEN "Dev_ReloadedEmptySparseLosesChildName"
   ELSE ""
